@@ -224,6 +224,15 @@ func runAggregation(raw json.RawMessage, seed int64) (res Result) {
 		if _, err := crypto.RemoveBLSPublicKeys(aggPk, []crypto.PublicKey{esk.PublicKey()}); !crypto.IsNotBLSKeyError(err) {
 			add("TypedErrors", fmt.Sprintf("RemoveBLSPublicKeys with an ECDSA key: %v", err))
 		}
+		// the aggregated key is checked whatever the removal list holds: empty, nil, BLS keys, a foreign key
+		for _, lst := range [][]crypto.PublicKey{nil, {}, pks[:1], {esk.PublicKey()}} {
+			if k, err := crypto.RemoveBLSPublicKeys(esk.PublicKey(), lst); !crypto.IsNotBLSKeyError(err) || k != nil {
+				add("TypedErrors", fmt.Sprintf("RemoveBLSPublicKeys(a non-BLS key, a list of %d keys) = (%v, %v), not the not-a-BLS-key error", len(lst), k, err))
+			}
+		}
+		if k, err := crypto.RemoveBLSPublicKeys(aggPk, nil); err != nil || !k.Equals(aggPk) {
+			add("RemovalInverse", fmt.Sprintf("RemoveBLSPublicKeys(key, nil) = (%v, %v), not the key itself", k, err))
+		}
 		if _, err := crypto.RemoveBLSPublicKeys(esk.PublicKey(), pks); !crypto.IsNotBLSKeyError(err) {
 			add("TypedErrors", fmt.Sprintf("RemoveBLSPublicKeys from an ECDSA key: %v", err))
 		}
